@@ -1118,11 +1118,19 @@ func (g *gen) genGroupsAndInjectors() {
 				dropped[ui] = true
 			}
 		}
+		// an expansion goes with its source: dropping a producer drops its Struct, and with it
+		// the nested Struct that reads one of its fields
+		for changed := true; changed; {
+			changed = false
+			for _, ui := range direct {
+				if !dropped[ui] && g.units[ui].Kind == "struct" && dropped[g.supplierUnit[g.units[ui].Struct]] {
+					dropped[ui] = true
+					changed = true
+				}
+			}
+		}
 		for _, ui := range direct {
 			if dropped[ui] {
-				continue
-			}
-			if g.units[ui].Kind == "struct" && dropped[g.supplierUnit[g.units[ui].Struct]] {
 				continue
 			}
 			included[ui] = true
